@@ -37,7 +37,7 @@ type C13Case struct {
 func init() {
 	Register(&Engine{
 		Name: "c13", Prop: "C13",
-		Rule: "case = (list of 1..6 trees on 3..13 taxa: rooted or not, multifurcating, with / without / partly with lengths, supports or inner names, names from " +
+		Rule: "case = (list of 1..6 (sometimes 10..13) trees on 3..13 taxa: rooted or not, multifurcating, with / without / partly with lengths, supports or inner names, names from " +
 			"[A-Za-z0-9_.] incl. a few purely numeric ones; a conversion chain of 1..3 hops over {Nexus, Nexus+translate, Tree.Nexus, PhyloXML}; chunk plan, " +
 			"bufio size, reader/consumer schedule; optionally one malformed tree at position j, blank lines, blanks and tabs after a tree's ';', CRLF). Every hop is written by gotree's writer fed " +
 			"through a channel and read back by ReadMultiTrees (real goroutine, scheduled) and by ReadTreeReader from a simulated chunked stream. Oracle: the " +
@@ -69,6 +69,9 @@ func genC13(rt *rapid.T, tier string) any {
 		}
 	}
 	ntrees := rapid.IntRange(1, 6).Draw(rt, "ntrees")
+	if rapid.IntRange(0, 7).Draw(rt, "manytrees") == 0 {
+		ntrees = rapid.IntRange(10, 13).Draw(rt, "ntreesmany") // tree10 sorts before tree2
+	}
 	for i := 0; i < ntrees; i++ {
 		lenMode := rapid.IntRange(0, 3).Draw(rt, "lenmode") // 0 none, 1 mixed, else all
 		innerSerial := 0
